@@ -58,6 +58,42 @@ Fixpoint nonneg (e : sel) : Prop :=
   | _ => 0 <= slen e
   end.
 
+(** ---------- finding F29 repaired.  The code as it was (above, [split]) loses a zero-length (thin) corrector:
+    num_splits = 0 gives the empty list.  The repaired correctors (horizontal_corrector.py / vertical_corrector.py) read
+
+      num_splits = torch.ceil(torch.max(self.length) / resolution).int()
+      if num_splits < 1:
+          return [self]
+      return [Cls(self.length / num_splits, self.angle / num_splits, ...) for _ in range(num_splits)]
+
+    i.e. a corrector that cannot be split is returned as it is.  Drift and Quadrupole are unchanged (length 0 still gives
+    no piece: such an element is the identity, so nothing is lost).  Which of [split] / [split_fixed] is the faithful model
+    is decided by the status of F29 in known_findings.json (harness/props/c16.py). *)
+Fixpoint split_fixed (res : Q) (e : sel) : list sel :=
+  match e with
+  | SDrift L m => let n := nsplit L res in repeat (SDrift (L / qn n) m) n
+  | SQuad L k1 mx my t s m => let n := nsplit L res in repeat (SQuad (L / qn n) k1 mx my t s m) n
+  | SHCor L a => match nsplit L res with O => [e] | n => repeat (SHCor (L / qn n) (a / qn n)) n end
+  | SVCor L a => match nsplit L res with O => [e] | n => repeat (SVCor (L / qn n) (a / qn n)) n end
+  | SOther _ _ => [e]
+  | SSeg es => flat_map (split_fixed res) es
+  end.
+
+(* every corrector of the (nested) element has a length: the region where [split] and [split_fixed] coincide *)
+Fixpoint cor_pos (e : sel) : Prop :=
+  match e with
+  | SHCor L _ | SVCor L _ => 0 < L
+  | SSeg es => fold_right (fun e a => cor_pos e /\ a) True es
+  | _ => True
+  end.
+
+(* the total deflection angle set on the correctors of a (nested) element *)
+Fixpoint tot_angle (e : sel) : Q :=
+  match e with
+  | SSeg es => fold_right (fun e a => tot_angle e + a) 0 es
+  | _ => sangle e
+  end.
+
 (** vectorised lengths: num_splits from the maximum, every component divided by it *)
 Definition qmax (l : list Q) : Q := fold_right (fun x m => if Qle_bool m x then x else m) 0 l.
 Definition vsplit (Ls : list Q) (res : Q) : list (list Q) :=
@@ -79,3 +115,23 @@ Definition c16_check (c : c16case) : bool :=
   Nat.eqb n (List.length (s_pieces c)) &&
   forallb (fun p => qabs_le (fst p) (s_L c / qn n) (ulp_rel * Qabs (s_L c / qn n))
                     && qabs_le (snd p) (s_angle c / qn n) (ulp_rel * Qabs (s_angle c / qn n))) (s_pieces c).
+
+(** the same check against the repaired code ([split_fixed], finding F29 fixed): the case carries which kind of element was
+    split (0 = Drift / Quadrupole, 1 = HorizontalCorrector, 2 = VerticalCorrector); the expected (length, angle) list is read off
+    the model's pieces themselves, so a thin corrector must come back as ONE piece with its length 0 and its whole angle *)
+Definition c16_sel (kind : nat) (c : c16case) : sel :=
+  match kind with
+  | 1%nat => SHCor (s_L c) (s_angle c)
+  | 2%nat => SVCor (s_L c) (s_angle c)
+  | _ => SDrift (s_L c) EmptyString
+  end.
+Definition c16_pieces_ok (expected : list sel) (observed : list (Q * Q)) : bool :=
+  Nat.eqb (List.length expected) (List.length observed) &&
+  forallb (fun ep => qabs_le (fst (snd ep)) (slen (fst ep)) (ulp_rel * Qabs (slen (fst ep)))
+                     && qabs_le (snd (snd ep)) (sangle (fst ep)) (ulp_rel * Qabs (sangle (fst ep))))
+          (combine expected observed).
+Definition c16_check_fixed (kc : nat * c16case) : bool :=
+  c16_pieces_ok (split_fixed (s_res (snd kc)) (c16_sel (fst kc) (snd kc))) (s_pieces (snd kc)).
+(* the code before the repair, in the same form (used to tell a stale status of F29 from a new defect) *)
+Definition c16_check_old (kc : nat * c16case) : bool :=
+  c16_pieces_ok (split (s_res (snd kc)) (c16_sel (fst kc) (snd kc))) (s_pieces (snd kc)).
